@@ -850,7 +850,44 @@ func genBulk(r *rand.Rand) Input {
 // ---- stream "reingest": an object is written back while it stays cached (write-back of one cache, observed), the
 // application is deleted, the very same upload is ingested again (byte-identical objects under the same keys), then
 // that cache is evicted or the storage closed before anything else changes, then restart and queries ----
+// variant: an application with several series; restart; the whole application is deleted (its dimensions become
+// empty, i.e. equal to what New would build); restart; ONE of the series is ingested again; app-wide query
+func genEmptied(r *rand.Rand) Input {
+	in := Input{Stream: "reingest"}
+	b := boundary(r, lib.Pick(r, []int64{100, 1000}))
+	names := []string{"app0{t=a}", "app0{t=b}", "app0{t=c}"}[:lib.Range(r, 2, 3)]
+	ups := []Step{}
+	for i, nm := range names {
+		f := b + 10*int64(r.Intn(10))
+		ups = append(ups, Step{Kind: "put", Name: nm, From: f, Until: f + 10,
+			Stacks: []treeu.Stack{{Key: []byte("a;b"), V: uint64(3 + i)}}})
+	}
+	in.Steps = append(in.Steps, ups...)
+	maint := func() {
+		if lib.Chance(r, 0.5) {
+			in.Steps = append(in.Steps, Step{Kind: "restart"})
+		} else {
+			in.Steps = append(in.Steps, Step{Kind: "evict", Cache: "dimensions", Num: 1, Den: 1})
+			in.Steps = append(in.Steps, Step{Kind: "evict", Cache: "segments", Num: 1, Den: 1})
+		}
+	}
+	maint()
+	in.Steps = append(in.Steps, Step{Kind: "delete", Name: "app0{}"})
+	maint()
+	in.Steps = append(in.Steps, ups[r.Intn(len(ups)-1)]) // a series that sorts before a deleted one
+	if lib.Chance(r, 0.5) {
+		maint()
+	}
+	in.Queries = append(in.Queries, Query{Name: "app0{}", From: b - 100, Until: b + 200})
+	in.Queries = append(in.Queries, Query{Name: names[0], From: b - 100, Until: b + 200})
+	in.Queries = append(in.Queries, Query{Name: names[len(names)-1], From: b - 100, Until: b + 200})
+	return in
+}
+
 func genReingest(r *rand.Rand) Input {
+	if lib.Chance(r, 0.5) {
+		return genEmptied(r)
+	}
 	in := Input{Stream: "reingest"}
 	b := boundary(r, lib.Pick(r, []int64{100, 1000}))
 	name := "app0{}"
